@@ -45,13 +45,13 @@ Init == s \in Pos /\ stage = "call" /\ cf = F!Dummy /\ ct = T!Dummy
 Call ==
   /\ stage = "call" /\ stage' = "done" /\ s' = s
   /\ cf' = FeedF(cf, <<[ev |-> "reset", len |-> 0, S |-> 65536, tag |-> 16, cipher |-> "AES-GCM", alg |-> "A256KW", keyName |-> "k",
-                        decKeyName |-> "", omit |-> FALSE, producer |-> "segfn"],
+                        decKeyName |-> "", omit |-> FALSE, producer |-> "segfn", hmax |-> 65536],
                        [ev |-> "segn", dir |-> "enc", hi |-> s.hi, lo |-> s.lo, last |-> s.last,
                         opens |-> Where(LAMBDA p : RefNonce(p) = RealNonce(s)), same |-> RefNonce(s) = RealNonce(s), plainOK |-> TRUE],
                        [ev |-> "segn", dir |-> "dec", hi |-> s.hi, lo |-> s.lo, last |-> s.last,
                         opens |-> IF RealNonce(s) = RefNonce(s) THEN <<s>> ELSE <<>>, same |-> TRUE, plainOK |-> TRUE],
                        [ev |-> "end"]>>)
-  /\ LET c0 == T!CReset([class |-> "segment-position", len |-> 0, mutated |-> TRUE, headerOnly |-> FALSE])
+  /\ LET c0 == T!CReset([class |-> "segment-position", len |-> 0, mutated |-> TRUE, headerOnly |-> FALSE, forged |-> FALSE])
          \* events 1..2NP: sealed by the real encryptor; 2NP+1..4NP: sealed by the README implementation
          OpenAt(j) == LET p == PosSeq[((j - 1) % (2 * NP)) + 1] IN
                       [ev |-> "openat", shi |-> s.hi, slo |-> s.lo, slast |-> s.last, hi |-> p.hi, lo |-> p.lo, last |-> p.last,
